@@ -10,6 +10,7 @@ stream ending, the remote reading any number of bytes, socket closed, request ch
 -/
 import SwimVerif.Proofs.DownlinkRead
 import SwimVerif.Proofs.DownlinkWrite
+import SwimVerif.Proofs.DownlinkSys
 
 set_option linter.unusedSimpArgs false
 set_option linter.unusedVariables false
@@ -358,5 +359,175 @@ example : ∀ e ∈ mTrace, evOk true e = true := by decide
 -- `upd 2` is superseded in place by `rem 2`; `upd 1 [3]` keeps its place behind it
 example : (wreach 40 41 mTrace).mode = .idle ∧
     sentCmds (wreach 40 41 mTrace) = [.mp (.upd 1 [1]), .mp (.rem 2), .mp (.upd 1 [3])] := by decide
+
+/-! ## T3 — the composed runtime `Sys`: read task + write task + attachment task + kill switch
+
+Quantifiers: both flavours, every socket capacity, node/lane length and bad-frame strategy, every list of ops of the
+line protocol (`Op`: consumers attaching with any options, remote notifications and end of input, consumer commands,
+the remote reading any number of bytes, consumers dropping either half of their channels, the stop trigger, the
+socket closing), hence every interleaving of the two tasks' inputs and every moment at which the kill switch fires.
+Method: a step of `Sys` projects to a short run of each task model (`sysStep_proj`: the op's own event, then `stop` /
+`closeReq` from `couple`), so the task-level invariants and theorems above apply to `(sreach ..).r` and `(sreach ..).w`. -/
+
+/-- States of the runtime reachable from a fresh runtime. -/
+def sreach (mapFl : Bool) (cap node lane : Nat) (abort : Bool) (ops : List Op) : Sys :=
+  sysRun (sysInit mapFl cap node lane abort) ops
+
+/-- **Projection.** The read-task component of every reachable state of `Sys` is a reachable state of the read-task
+model, under loop events with pairwise distinct consumer identifiers; the write-task component is a reachable state
+of the write-task model, under inputs of the runtime's flavour. (So every theorem of T1 and T2 holds of them.) -/
+theorem C07_sys_projects_to_tasks (mapFl : Bool) (cap node lane : Nat) (abort : Bool) (ops : List Op) :
+    (sreach mapFl cap node lane abort ops).r =
+      rreach (if mapFl then Generated.dlMapSingleFrame else Generated.dlValueSingleFrame) (if mapFl then abort else true)
+        (sysREvs (sysInit mapFl cap node lane abort) ops) ∧
+    (attachIds (sysREvs (sysInit mapFl cap node lane abort) ops)).Nodup ∧
+    (sreach mapFl cap node lane abort ops).w =
+      wreach cap (Generated.dlHeaderInitLen + node + lane) (.drain 0 :: sysWEvs (sysInit mapFl cap node lane abort) ops) ∧
+    ((∀ op ∈ ops, opOk mapFl op = true) →
+      ∀ e ∈ WEv.drain 0 :: sysWEvs (sysInit mapFl cap node lane abort) ops, evOk mapFl e = true) :=
+  ⟨(sysRun_proj _ ops).1, (sysREvs_ids ops _).2, sysRun_w mapFl cap node lane abort ops, sysRun_w_ok mapFl _ ops⟩
+
+/-- **(a) Session grammar in the composed runtime.** For every run of `Sys` and every consumer `c`, what `c` receives
+— from the read task, from the kill switch unlinking everybody, or the bare end of its channel when it attached after
+the attachment task had gone — is a word of `[linked event* [synced event*]] [unlinked eof] | eof`. -/
+theorem C07_sys_consumer_session (mapFl : Bool) (cap node lane : Nat) (abort : Bool) (ops : List Op) (c : Nat) :
+    (accepts .fresh (logOf c (sysNotes (sysInit mapFl cap node lane abort) ops))).isSome := by
+  obtain ⟨p, hp, _⟩ := sinv_run ops _ .fresh (sinv_init c mapFl cap node lane abort)
+  simp [hp]
+
+/-- … `synced` only to a consumer that asked for it (`C07_synced_only_if_asked` lifted). -/
+theorem C07_sys_synced_only_if_asked (mapFl : Bool) (cap node lane : Nat) (abort : Bool) (ops : List Op) (op : Op)
+    (i : Nat) (h : (i, Note.synced) ∈ stepNotes (sreach mapFl cap node lane abort ops) op) :
+    ∃ x ∈ (sreach mapFl cap node lane abort ops).r.aSynced, x.id = i ∧ x.sync = true := by
+  obtain ⟨e, he⟩ := step_synced _ op i h
+  rw [(C07_sys_projects_to_tasks mapFl cap node lane abort ops).1] at he ⊢
+  exact C07_synced_only_if_asked _ _ _ e i he
+
+/-- **(a) Registered-tail exactness in the composed runtime** (`C07_registered_tail_exact` lifted): from any
+reachable state of `Sys` in which `c` is registered with the read task, for every continuation `post` in which `c`
+keeps its reader, `c` receives exactly `expectedTail` of the loop events the read task sees during `post`
+(`sysREvs`: per op its own event — a remote notification, an attach, a dropped reader, end of input — followed by
+`stop` when the kill switch fires): one `event b` per remote event `b` in order, nothing else, and `unlinked` + end of
+stream when the link closes, the remote input ends, the stop trigger fires or the write task has stopped. -/
+theorem C07_sys_registered_tail_exact (mapFl : Bool) (cap node lane : Nat) (abort : Bool) (pre post : List Op)
+    (c : Nat) (x : Consumer)
+    (hreg : RegAt c (sreach mapFl cap node lane abort pre).r x)
+    (halive : (sreach mapFl cap node lane abort pre).r.alive x = true)
+    (hrun : (sreach mapFl cap node lane abort pre).r.stopped = false)
+    (hkeep : ∀ op ∈ post, op ≠ .dropR c ∧ op ≠ .dropBoth c) :
+    logOf c (sysNotes (sreach mapFl cap node lane abort pre) post) =
+      expectedTail (if mapFl then abort else true) (sysREvs (sreach mapFl cap node lane abort pre) post) ∧
+    logOf c (sysNotes (sysInit mapFl cap node lane abort) (pre ++ post)) =
+      logOf c (sysNotes (sysInit mapFl cap node lane abort) pre) ++
+        expectedTail (if mapFl then abort else true) (sysREvs (sreach mapFl cap node lane abort pre) post) := by
+  have hproj := (C07_sys_projects_to_tasks mapFl cap node lane abort pre).1
+  obtain ⟨p, _, hs⟩ := sinv_run (c := c) pre _ .fresh (sinv_init c mapFl cap node lane abort)
+  have hcn : c < (sreach mapFl cap node lane abort pre).n := by
+    rcases hs with ⟨_, hni, _⟩ | ⟨h, _⟩
+    · have := hreg.2.2
+      have h3 : sel c (sreach mapFl cap node lane abort pre).r.reg = [] := hni.2.2
+      rw [h3] at this; cases this
+    · exact h
+  obtain ⟨k1, k2, k3⟩ := known_run post (sreach mapFl cap node lane abort pre) hcn
+  have ht : TInv (sreach mapFl cap node lane abort pre).r := by
+    rw [hproj]; exact tinv_run _ (tinv_init _ _)
+  have hab : (sreach mapFl cap node lane abort pre).r.abort = (if mapFl then abort else true) := by
+    rw [hproj]; unfold rreach; rw [abort_run]; rfl
+  have key : logOf c (sysNotes (sreach mapFl cap node lane abort pre) post) =
+      expectedTail (if mapFl then abort else true) (sysREvs (sreach mapFl cap node lane abort pre) post) := by
+    rw [k1, registered_tail _ _ x ht hrun hreg halive (k3 hkeep) k2, hab]
+  refine ⟨key, ?_⟩
+  have happ : ∀ (a b : List Op) (s : Sys), sysNotes s (a ++ b) = sysNotes s a ++ sysNotes (sysRun s a) b := by
+    intro a
+    induction a with
+    | nil => intro b s; rfl
+    | cons o os ih => intro b s; simp [sysNotes, sysRun, ih, List.append_assoc]
+  rw [happ, logOf_append]
+  exact congrArg _ key
+
+/-- **(b) Commands reach the socket in order, nothing invented** (`C07_commands_order`, `C07_no_fabricated_command`
+lifted): in every reachable state of `Sys` (commands of the runtime's flavour), for every key `k` the relevant commands
+on the wire or waiting in the back-pressure buffer are a subsequence of the relevant commands taken from the
+consumers, ending with the same command; and every command taken from a consumer — hence every command on the wire —
+is the command of a `cmd` op of some consumer. -/
+theorem C07_sys_commands_order (mapFl : Bool) (cap node lane : Nat) (abort : Bool) (ops : List Op)
+    (hfl : ∀ op ∈ ops, opOk mapFl op = true) (k : Option Nat) :
+    (projKey k (line (sreach mapFl cap node lane abort ops).w)).Sublist
+      (projKey k (sreach mapFl cap node lane abort ops).w.issued) ∧
+    (projKey k (line (sreach mapFl cap node lane abort ops).w)).getLast? =
+      (projKey k (sreach mapFl cap node lane abort ops).w.issued).getLast? ∧
+    (∀ x ∈ (sreach mapFl cap node lane abort ops).w.issued, ∃ c, Op.cmd c x ∈ ops) ∧
+    (∀ x ∈ line (sreach mapFl cap node lane abort ops).w, ∃ c, Op.cmd c x ∈ ops) := by
+  obtain ⟨_, _, hw, hok⟩ := C07_sys_projects_to_tasks mapFl cap node lane abort ops
+  have hissued : ∀ x ∈ (sreach mapFl cap node lane abort ops).w.issued, ∃ c, Op.cmd c x ∈ ops := by
+    intro x hx
+    rw [hw] at hx
+    rcases wrun_issued _ _ x hx with h | ⟨id, h⟩
+    · simp [winit, encode] at h
+    · rcases List.mem_cons.mp h with h | h
+      · cases h
+      · exact ⟨id, sysWEvs_command ops _ id x h⟩
+  have hmem : ∀ x ∈ line (sreach mapFl cap node lane abort ops).w, x ∈ (sreach mapFl cap node lane abort ops).w.issued := by
+    rw [hw]; exact C07_no_fabricated_command mapFl cap _ _ (hok hfl)
+  have := C07_commands_order mapFl cap (Generated.dlHeaderInitLen + node + lane)
+    (.drain 0 :: sysWEvs (sysInit mapFl cap node lane abort) ops) (hok hfl) k
+  rw [← hw] at this
+  exact ⟨this.1, this.2, hissued, fun x hx => hissued x (hmem x hx)⟩
+
+/-- **(b) Only superseded commands are dropped** (`C07_only_superseded_dropped` lifted): whenever the write task of
+`Sys` is `Idle`, for every key the last relevant command taken from the consumers is the last relevant command
+written to the socket — a command that was not written has a later one on its key (or a later clear) that was. -/
+theorem C07_sys_only_superseded_dropped (mapFl : Bool) (cap node lane : Nat) (abort : Bool) (ops : List Op)
+    (hfl : ∀ op ∈ ops, opOk mapFl op = true) (hidle : (sreach mapFl cap node lane abort ops).w.mode = .idle)
+    (k : Option Nat) :
+    (projKey k (sentCmds (sreach mapFl cap node lane abort ops).w)).Sublist
+      (projKey k (sreach mapFl cap node lane abort ops).w.issued) ∧
+    (projKey k (sentCmds (sreach mapFl cap node lane abort ops).w)).getLast? =
+      (projKey k (sreach mapFl cap node lane abort ops).w.issued).getLast? := by
+  obtain ⟨_, _, hw, hok⟩ := C07_sys_projects_to_tasks mapFl cap node lane abort ops
+  rw [hw] at hidle ⊢
+  exact C07_only_superseded_dropped mapFl cap _ _ (hok hfl) hidle k
+
+/-- **(c) The sync frame is sent** (`C07_sync_frame_sent_once_idle` lifted): whenever the write task of `Sys` is
+`Idle`, every registered consumer that asked for SYNC has had a sync frame encoded after its registration was taken;
+and a sync frame is owed only while the task is `Writing` with `NEEDS_SYNC` (or has stopped). -/
+theorem C07_sys_sync_sent_once_idle (mapFl : Bool) (cap node lane : Nat) (abort : Bool) (ops : List Op) :
+    ((sreach mapFl cap node lane abort ops).w.mode = .idle → (sreach mapFl cap node lane abort ops).w.owed = []) ∧
+    ((sreach mapFl cap node lane abort ops).w.owed ≠ [] →
+      ((sreach mapFl cap node lane abort ops).w.mode = .writing ∧ (sreach mapFl cap node lane abort ops).w.needsSync = true)
+        ∨ (sreach mapFl cap node lane abort ops).w.mode = .stopped) := by
+  obtain ⟨_, _, hw, _⟩ := C07_sys_projects_to_tasks mapFl cap node lane abort ops
+  rw [hw]
+  exact ⟨C07_sync_frame_sent_once_idle cap _ _, (C07_sync_owed_only_while_writing cap _ _).1⟩
+
+/-! Non-vacuity: a value downlink over a 64-byte socket; consumer 0 (SYNC) and the late consumer 1 (no SYNC); a
+command; the stop trigger. And a 10-byte socket on which the `link` frame is stuck: the stop trigger ends the read
+task while the write task is still `linking`, a consumer attaching then only sees its channel end. -/
+
+def sysTrace : List Op :=
+  [.attach true true, .drain 100, .remote .linked, .remote (.event (.raw [1])), .remote .synced,
+   .attach false true, .cmd 0 (.val [7]), .drain 100, .drain 100, .remote (.event (.raw [2])), .stop]
+
+example : ∀ op ∈ sysTrace, opOk false op = true := by decide
+example : RegAt 0 (sreach false 64 1 1 true (sysTrace.take 5)).r { id := 0, sync := true, keep := true } ∧
+    (sreach false 64 1 1 true (sysTrace.take 5)).r.alive { id := 0, sync := true, keep := true } = true ∧
+    (sreach false 64 1 1 true (sysTrace.take 5)).r.stopped = false := by unfold RegAt; decide
+example : ∀ op ∈ sysTrace.drop 5, op ≠ .dropR 0 ∧ op ≠ .dropBoth 0 := by decide
+example : logOf 0 (sysNotes (sysInit false 64 1 1 true) sysTrace) =
+    [.linked, .event (.raw [1]), .synced, .event (.raw [2]), .unlinked, .eof] := by decide
+example : logOf 1 (sysNotes (sysInit false 64 1 1 true) sysTrace) = [.linked, .event (.raw [2]), .unlinked, .eof] := by
+  decide
+example : sysREvs (sreach false 64 1 1 true (sysTrace.take 5)) (sysTrace.drop 5) =
+    [.attach { id := 1, sync := false, keep := true }, .msg (.event (.raw [2])), .stop] := by decide
+example : (sreach false 64 1 1 true (sysTrace.take 10)).w.mode = .idle ∧
+    (sreach false 64 1 1 true (sysTrace.take 10)).w.sent = [.link, .sync, .cmd (.val [7])] ∧
+    (sreach false 64 1 1 true (sysTrace.take 10)).w.issued = [.val [7]] := by decide
+example : (i, Note.synced) ∈ stepNotes (sreach false 64 1 1 true (sysTrace.take 4)) (.remote .synced) ↔ i = 0 := by
+  have : stepNotes (sreach false 64 1 1 true (sysTrace.take 4)) (.remote .synced) =
+      [(0, .event (.raw [1])), (0, .synced)] := by decide
+  rw [this]; simp
+example : sysNotes (sysInit false 10 1 1 true) [.attach true true, .stop, .attach false false] =
+    [(0, .unlinked), (0, .eof), (1, .eof)] ∧
+    (sreach false 10 1 1 true [.attach true true, .stop, .attach false false]).w.mode = .linking := by decide
 
 end SwimVerif.DL
